@@ -1150,7 +1150,7 @@ Qed.
 
 (* the pre-pass state in front of line k (None: the input has fewer than k lines) *)
 Fixpoint prepass_at (rest : list string) (closer : option string) (in_story : bool) (skip k : nat)
-  : option (option string * bool * nat) :=
+         {struct k} : option (option string * bool * nat) :=
   match k with
   | 0 => Some (closer, in_story, skip)
   | S k' =>
@@ -1170,7 +1170,7 @@ Lemma prepass_at_skip_le : forall k r cl ins sk cl2 ins2,
   prepass_at r cl ins sk k = Some (cl2, ins2, 0) -> sk <= k.
 Proof.
   induction k as [|k IH]; intros r cl ins sk cl2 ins2 H.
-  - simpl in H. injection H as _ _ ->. lia.
+  - simpl in H. injection H as E1 E2 E3. lia.
   - destruct r as [|l r]; [discriminate|]. destruct sk as [|s]; [lia|].
     simpl in H. apply IH in H. lia.
 Qed.
@@ -1191,7 +1191,7 @@ Lemma prepass_insert_gen : forall k ls cl ins sk ins2 c,
   spcop (insert_at k c ls) cl ins sk = insert_at k (if ins2 then bare_of c else c) (spcop ls cl ins sk).
 Proof.
   induction k as [|k IH]; intros ls cl ins sk ins2 c H Hk Hc.
-  - simpl in H. injection H as -> -> ->. rewrite !insert_at_0, spcop_0. cbv zeta.
+  - simpl in H. injection H as E1 E2 E3. subst cl ins sk. rewrite !insert_at_0, spcop_0. cbv zeta.
     pose proof (is_hash_bare c Hc) as Hb. unfold is_hash in Hb.
     rewrite (is_hash_not_header c Hc).
     rewrite (startswith_hash_other _ "@" "start " Hb) by reflexivity.
@@ -1209,4 +1209,822 @@ Proof.
       rewrite insert_at_S. f_equal. apply IH; [exact H|lia|exact Hc].
     + cbn [prepass_at] in H. cbn [strip_comments_outside_python]. rewrite insert_at_S. f_equal.
       apply IH; [exact H|lia|exact Hc].
+Qed.
+
+(* ---- the main loop ---- *)
+
+Section LoopSim.
+Variable pp : pyparse.
+Variable xs : extractors.
+Hypothesis xs_ok : extractors_ok xs.
+
+Lemma step_progress : forall lines i line st st' i',
+  nth_error lines i = Some line -> parse_step pp xs lines i line st = POk (st', i') -> i < i'.
+Proof.
+  intros lines i line st st' i' Hn H.
+  destruct (parse_step_adv pp xs xs_ok (fun _ _ => True) (fun _ _ _ => I) (fun _ _ _ _ _ _ => I)
+              (fun _ _ _ => I) (fun _ _ _ => I) (fun _ _ _ => I) (fun _ _ _ => I) lines i line st Hn)
+    as [_ Hadv].
+  exact (Hadv st' i' H).
+Qed.
+
+(* with enough fuel the amount of fuel does not matter *)
+Lemma fuel_irrel : forall lines f1 f2 i st,
+  List.length lines < f1 + i -> List.length lines < f2 + i ->
+  parse_loop pp xs f1 lines (List.length lines) i st = parse_loop pp xs f2 lines (List.length lines) i st.
+Proof.
+  intros lines. induction f1 as [|f1 IH]; intros f2 i st H1 H2.
+  - destruct f2; simpl; destruct (List.length lines <=? i) eqn:E; try reflexivity;
+      apply Nat.leb_gt in E; lia.
+  - destruct f2 as [|f2].
+    + simpl. destruct (List.length lines <=? i) eqn:E; [reflexivity|]. apply Nat.leb_gt in E. lia.
+    + cbn [parse_loop]. destruct (List.length lines <=? i) eqn:E; [reflexivity|]. apply Nat.leb_gt in E.
+      destruct (nth_error lines i) as [line|] eqn:En; [|reflexivity].
+      destruct (parse_step pp xs lines i line st) as [[st' i']|dd|kk|] eqn:Es; try reflexivity.
+      simpl. pose proof (step_progress _ _ _ _ _ _ En Es). apply IH; lia.
+Qed.
+
+(* the state in which the loop arrives at index k (None: it does not stop at k) *)
+Fixpoint loop_to (fuel : nat) (lines : list string) (k i : nat) (st : pstate) : option pstate :=
+  if i =? k then Some st else
+  match fuel with
+  | 0 => None
+  | S f =>
+      if k <? i then None else
+      match nth_error lines i with
+      | None => None
+      | Some line =>
+          match parse_step pp xs lines i line st with
+          | POk (st', i') => loop_to f lines k i' st'
+          | _ => None
+          end
+      end
+  end.
+
+Lemma loop_to_le : forall f lines k i st s, loop_to f lines k i st = Some s -> i <= k.
+Proof.
+  intros [|f] lines k i st s H; simpl in H; destruct (i =? k) eqn:E;
+    try (apply Nat.eqb_eq in E; lia); try discriminate.
+  destruct (k <? i) eqn:E2; [discriminate|]. apply Nat.ltb_ge in E2. exact E2.
+Qed.
+
+Lemma loop_split : forall lines f k F i st stk,
+  loop_to f lines k i st = Some stk -> k <= List.length lines -> List.length lines < F + i ->
+  parse_loop pp xs F lines (List.length lines) i st = parse_loop pp xs F lines (List.length lines) k stk.
+Proof.
+  intros lines. induction f as [|f IH]; intros k F i st stk H Hk HF.
+  - simpl in H. destruct (i =? k) eqn:E; [|discriminate]. apply Nat.eqb_eq in E. congruence.
+  - cbn [loop_to] in H. destruct (i =? k) eqn:E; [apply Nat.eqb_eq in E; congruence|].
+    apply Nat.eqb_neq in E. destruct (k <? i) eqn:E2; [discriminate|]. apply Nat.ltb_ge in E2.
+    destruct (nth_error lines i) as [line|] eqn:En; [|discriminate].
+    destruct (parse_step pp xs lines i line st) as [[st' i']|dd|kk|] eqn:Es; try discriminate.
+    pose proof (step_progress _ _ _ _ _ _ En Es) as Hp.
+    pose proof (loop_to_le _ _ _ _ _ _ H) as Hle.
+    destruct F as [|F]; [lia|].
+    remember (parse_loop pp xs (S F) lines (List.length lines) k stk) as R eqn:ER.
+    cbn [parse_loop]. replace (List.length lines <=? i) with false by (symmetry; apply Nat.leb_gt; lia).
+    rewrite En, Es. simpl.
+    rewrite (IH k F i' st' stk H Hk) by lia. subst R.
+    apply fuel_irrel; lia.
+Qed.
+
+(* a comment line met at top level is skipped *)
+Lemma hash_step : forall lines j c st, is_hash c = true -> st_in_metadata st = false ->
+  parse_step pp xs lines j c st = POk (st, S j).
+Proof.
+  intros lines j c st Hc Hm. unfold is_hash in Hc. unfold parse_step. cbv zeta.
+  rewrite Hc. rewrite orb_true_r.
+  destruct (st_in_imports st) eqn:Ei; [reflexivity|].
+  rewrite (hash_not_eq (strip c) "@metadata" "@" "metadata" Hc) by reflexivity.
+  rewrite Hm.
+  rewrite (startswith_hash_other _ "@" "start " Hc) by reflexivity.
+  fold (is_hash c) in Hc. rewrite (is_hash_not_header c Hc).
+  destruct (st_current st) as [cp|]; [|reflexivity].
+  unfold body_step. unfold is_hash in Hc. rewrite Hc. reflexivity.
+Qed.
+
+End LoopSim.
+
+(* What the theorem needs of the block extractors for an insertion of c in front of line k of L
+   (L is the line list the main loop sees).  It is asked only at lines where the main loop calls an
+   extractor, so it is vacuous for inputs without block constructs.
+     before k: a block that ended before the inserted line is returned unchanged;
+     from k on: the extractor does on the shifted input what it did on the original one (diagnostics
+                up to the line index they carry). *)
+Definition xs_local (xs : extractors) (L : list string) (k : nat) (c : string) : Prop :=
+  let L' := insert_at k c L in
+  (forall i line, i < k -> nth_error L i = Some line -> py_test (strip line) = true ->
+     forall t n, x_python xs L i = POk (t, n) -> i + n <= k -> x_python xs L' i = POk (t, n)) /\
+  (forall i line, i < k -> nth_error L i = Some line -> if_test (strip line) = true ->
+     forall t n, x_conditional xs L i = POk (t, n) -> i + n <= k -> x_conditional xs L' i = POk (t, n)) /\
+  (forall i line, i < k -> nth_error L i = Some line -> for_test (strip line) = true ->
+     forall t n, x_loop xs L i = POk (t, n) -> i + n <= k -> x_loop xs L' i = POk (t, n)) /\
+  (forall i line ind, i < k -> nth_error L i = Some line -> join_site line = true ->
+     forall r n, x_join xs L (S i) ind = POk (r, n) -> S (i + n) <= k -> x_join xs L' (S i) ind = POk (r, n)) /\
+  (forall i line, k <= i -> nth_error L i = Some line -> py_test (strip line) = true ->
+     erase (x_python xs L' (S i)) = erase (x_python xs L i)) /\
+  (forall i line, k <= i -> nth_error L i = Some line -> if_test (strip line) = true ->
+     erase (x_conditional xs L' (S i)) = erase (x_conditional xs L i)) /\
+  (forall i line, k <= i -> nth_error L i = Some line -> for_test (strip line) = true ->
+     erase (x_loop xs L' (S i)) = erase (x_loop xs L i)) /\
+  (forall i line ind, k <= i -> nth_error L i = Some line -> join_site line = true ->
+     erase (x_join xs L' (S (S i)) ind) = erase (x_join xs L (S i) ind)).
+
+(* outcome of the loop, up to recorded line numbers and diagnostic indices *)
+Definition loop_rel (r r' : pres pstate) : Prop :=
+  match r with
+  | POk s => exists l3, r' = POk (set_locs s l3) /\ loc_rel (st_locations s) l3
+  | PDiag dd => exists dd', r' = PDiag dd' /\ erase_d dd' = erase_d dd
+  | PInternal a => r' = PInternal a
+  | POutOfFuel => r' = POutOfFuel
+  end.
+
+Section InsertSim.
+Variable pp : pyparse.
+Variable xs : extractors.
+Hypothesis xs_ok : extractors_ok xs.
+Variable L : list string.
+Variable k : nat.
+Variable c : string.
+Hypothesis Hk : k < List.length L.
+Hypothesis Hloc : xs_local xs L k c.
+
+Let L' := insert_at k c L.
+
+Lemma loop_to_sim : forall f i st l2 stk,
+  loop_to pp xs f L k i st = Some stk -> loc_rel (st_locations st) l2 ->
+  exists lk, loop_to pp xs f L' k i (set_locs st l2) = Some (set_locs stk lk) /\
+             loc_rel (st_locations stk) lk.
+Proof.
+  destruct Hloc as [B1 [B2 [B3 [B4 _]]]].
+  induction f as [|f IH]; intros i st l2 stk H Hl.
+  - simpl in H |- *. destruct (i =? k); [|discriminate]. injection H as <-. eauto.
+  - cbn [loop_to] in H |- *. destruct (i =? k) eqn:E; [injection H as <-; eauto|].
+    apply Nat.eqb_neq in E. destruct (k <? i) eqn:E2; [discriminate|]. apply Nat.ltb_ge in E2.
+    assert (Hi : i < k) by lia.
+    unfold L'. rewrite nth_error_insert_lt by lia.
+    destruct (nth_error L i) as [line|] eqn:En; [|discriminate].
+    destruct (parse_step pp xs L i line st) as [[st' i']|dd|kk|] eqn:Es; try discriminate.
+    pose proof (loop_to_le _ _ _ _ _ _ _ _ H) as Hle.
+    assert (S1 : SR 0 (fun j => j <= k) False (parse_step pp xs L i line st)
+                    (parse_step pp xs (insert_at k c L) (0 + i) line (set_locs st l2))).
+    { apply parse_step_sim; [| | | | |exact Hl].
+      - intros Ht Hg. simpl. destruct (x_python xs L i) as [[t n]|?|?|] eqn:Ex; try contradiction.
+        simpl in Hg. rewrite (B1 i line Hi En Ht t n Ex Hg). reflexivity.
+      - intros Ht Hg. simpl. destruct (x_conditional xs L i) as [[t n]|?|?|] eqn:Ex; try contradiction.
+        simpl in Hg. rewrite (B2 i line Hi En Ht t n Ex Hg). reflexivity.
+      - intros Ht Hg. simpl. destruct (x_loop xs L i) as [[t n]|?|?|] eqn:Ex; try contradiction.
+        simpl in Hg. rewrite (B3 i line Hi En Ht t n Ex Hg). reflexivity.
+      - intros ind Ht Hg. simpl. destruct (x_join xs L (S i) ind) as [[r n]|?|?|] eqn:Ex; try contradiction.
+        simpl in Hg. rewrite (B4 i line ind Hi En Ht r n Ex Hg). reflexivity.
+      - intros code [Hc|[]]. simpl. apply eme_insert_before; [exact Hc|exact Hk]. }
+    rewrite Es in S1. destruct (S1 Hle) as [l3 [E3 H3]]. simpl in E3. rewrite E3.
+    apply IH; assumption.
+Qed.
+
+Lemma loop_sim2 : forall F i st l2, k <= i -> loc_rel (st_locations st) l2 ->
+  loop_rel (parse_loop pp xs F L (List.length L) i st)
+           (parse_loop pp xs F L' (S (List.length L)) (S i) (set_locs st l2)).
+Proof.
+  destruct Hloc as [_ [_ [_ [_ [A1 [A2 [A3 A4]]]]]]].
+  induction F as [|F IH]; intros i st l2 Hi Hl.
+  - simpl. destruct (List.length L <=? i); simpl; eauto.
+  - cbn [parse_loop]. change (S (List.length L) <=? S i) with (List.length L <=? i).
+    destruct (List.length L <=? i) eqn:E; [simpl; eauto|]. apply Nat.leb_gt in E.
+    unfold L'. rewrite nth_error_insert_ge by lia.
+    destruct (nth_error L i) as [line|] eqn:En; [|reflexivity].
+    assert (S1 : SR 1 (fun _ => True) True (parse_step pp xs L i line st)
+                    (parse_step pp xs (insert_at k c L) (1 + i) line (set_locs st l2))).
+    { apply parse_step_sim; [| | | | |exact Hl].
+      - intros Ht _. exact (A1 i line Hi En Ht).
+      - intros Ht _. exact (A2 i line Hi En Ht).
+      - intros Ht _. exact (A3 i line Hi En Ht).
+      - intros ind Ht _. exact (A4 i line ind Hi En Ht).
+      - intros code _. apply eme_insert_after; lia. }
+    change (1 + i) with (S i) in S1.
+    destruct (parse_step pp xs L i line st) as [[st' i']|dd|kk|] eqn:Es.
+    + destruct (S1 I) as [l3 [E3 H3]]. rewrite E3. simpl.
+      pose proof (step_progress pp xs xs_ok _ _ _ _ _ _ En Es) as Hp.
+      apply IH; [lia|exact H3].
+    + destruct (S1 I) as [dd' [E3 H3]]. rewrite E3. simpl. eauto.
+    + rewrite (S1 I). reflexivity.
+    + rewrite (S1 I). reflexivity.
+Qed.
+
+(* the loop on the input with the comment line inserted, against the loop on the input *)
+Lemma loop_insert : forall f stk,
+  is_hash c = true ->
+  loop_to pp xs f L k 0 init_state = Some stk -> st_in_metadata stk = false ->
+  loop_rel (parse_loop pp xs (S (List.length L)) L (List.length L) 0 init_state)
+           (parse_loop pp xs (S (List.length L')) L' (List.length L') 0 init_state).
+Proof.
+  intros f stk Hc Hto Hm.
+  assert (HL' : List.length L' = S (List.length L)) by apply insert_at_length.
+  rewrite (loop_split pp xs xs_ok L f k (S (List.length L)) 0 init_state stk Hto) by lia.
+  destruct (loop_to_sim f 0 init_state [] stk Hto (loc_rel_refl _)) as [lk [Hto' Hlk]].
+  change (set_locs init_state []) with init_state in Hto'.
+  rewrite (loop_split pp xs xs_ok L' f k (S (List.length L')) 0 init_state _ Hto') by lia.
+  rewrite HL'.
+  replace (parse_loop pp xs (S (S (List.length L))) L' (S (List.length L)) k (set_locs stk lk))
+    with (parse_loop pp xs (S (List.length L)) L' (S (List.length L)) (S k) (set_locs stk lk)).
+  2:{ symmetry. cbn [parse_loop].
+      replace (S (List.length L) <=? k) with false by (symmetry; apply Nat.leb_gt; lia).
+      unfold L'. rewrite nth_error_insert_eq by lia.
+      rewrite hash_step; [reflexivity|exact Hc|exact Hm]. }
+  apply loop_sim2; [lia|exact Hlk].
+Qed.
+
+End InsertSim.
+
+(* ---- (b), whole compiler model ---- *)
+
+(* Position k of the input is at top level: the pre-pass is outside Python code there (no open
+   @py:/<<py block, no continuation line of a ~ statement pending), the main loop arrives at index k
+   (it is not inside a block that an extractor is consuming), and it is not inside the @metadata block. *)
+Definition top_level_at (pp : pyparse) (xs : extractors) (ls : list string) (k : nat) : bool :=
+  match prepass_at ls None false 0 k with
+  | Some (None, _, 0) =>
+      match loop_to pp xs (S (List.length ls)) (spcop ls None false 0) k 0 init_state with
+      | Some stk => negb (st_in_metadata stk)
+      | None => false
+      end
+  | _ => false
+  end.
+
+Lemma hash_line_invisible_lemma : forall pp is_call xs ls k c,
+  extractors_ok xs ->
+  k < List.length ls -> is_hash c = true -> top_level_at pp xs ls k = true ->
+  (forall c', is_hash c' = true -> xs_local xs (spcop ls None false 0) k c') ->
+  erase (parse pp is_call xs (insert_at k c ls)) = erase (parse pp is_call xs ls).
+Proof.
+  intros pp is_call xs ls k c Hx Hk Hc Ht Hloc. unfold top_level_at in Ht.
+  destruct (prepass_at ls None false 0 k) as [[[[cl|] ins] [|sk]]|] eqn:Ep; try discriminate.
+  destruct (loop_to pp xs (S (List.length ls)) (spcop ls None false 0) k 0 init_state) as [stk|] eqn:El;
+    [|discriminate].
+  apply negb_true_iff in Ht.
+  unfold parse. rewrite (prepass_insert_gen k ls None false 0 ins c Ep Hk Hc).
+  set (L := spcop ls None false 0) in *.
+  set (c' := if ins then bare_of c else c).
+  assert (Hc' : is_hash c' = true) by (unfold c'; destruct ins; [apply is_hash_bare|]; exact Hc).
+  assert (HkL : k < List.length L) by (unfold L; rewrite spcop_length; exact Hk).
+  pose proof (loop_insert pp xs Hx L k c' HkL (Hloc c' Hc') _ stk Hc' El Ht) as R.
+  destruct (parse_loop pp xs (S (List.length L)) L (List.length L) 0 init_state) as [s|dd|kk|].
+  - destruct R as [l3 [-> H3]]. cbn [pbind].
+    change (flush_current (set_locs s l3)) with (flush_current s).
+    change (st_locations (set_locs s l3)) with l3.
+    change (st_explicit_start (set_locs s l3)) with (st_explicit_start s).
+    change (st_imports (set_locs s l3)) with (st_imports s).
+    change (st_metadata (set_locs s l3)) with (st_metadata s).
+    rewrite (loc_rel_dups _ _ H3). reflexivity.
+  - destruct R as [dd' [-> H3]]. simpl. rewrite H3. reflexivity.
+  - rewrite R. reflexivity.
+  - rewrite R. reflexivity.
+Qed.
+
+(* inputs without block constructs: every line is classified by the main loop itself *)
+Definition blockfree_line (line : string) : bool :=
+  negb (py_test (strip line)) && negb (if_test (strip line)) && negb (for_test (strip line)) &&
+  negb (join_site line).
+Definition blockfree (L : list string) : bool := forallb blockfree_line L.
+
+Lemma blockfree_local : forall xs L k c, blockfree L = true -> xs_local xs L k c.
+Proof.
+  intros xs L k c H.
+  assert (F : forall i line, nth_error L i = Some line -> blockfree_line line = true).
+  { intros i line Hn. unfold blockfree in H. rewrite forallb_forall in H. apply H.
+    eapply nth_error_In. exact Hn. }
+  unfold xs_local. cbv zeta.
+  repeat split; intros i line; intros;
+    match goal with Hn : nth_error L i = Some line |- _ => pose proof (F i line Hn) as Hb end;
+    unfold blockfree_line in Hb;
+    repeat match type of Hb with _ && _ = true => apply andb_prop in Hb; destruct Hb as [Hb ?] end;
+    repeat match goal with Hx : negb _ = true |- _ => apply negb_true_iff in Hx end;
+    congruence.
+Qed.
+
+Lemma hash_line_invisible_blockfree_lemma : forall pp is_call xs ls k c,
+  extractors_ok xs ->
+  blockfree (spcop ls None false 0) = true ->
+  k < List.length ls -> is_hash c = true -> top_level_at pp xs ls k = true ->
+  erase (parse pp is_call xs (insert_at k c ls)) = erase (parse pp is_call xs ls).
+Proof.
+  intros pp is_call xs ls k c Hx Hb Hk Hc Ht.
+  apply hash_line_invisible_lemma; try assumption.
+  intros c' _. apply blockfree_local. exact Hb.
+Qed.
+
+(* a compiled story is exactly the same story *)
+Lemma erase_ok_eq : forall A (m m' : pres A) a, erase m' = erase m -> m = POk a -> m' = POk a.
+Proof. intros A m m' a H ->. apply erase_ok_inv in H. exact H. Qed.
+
+(* =========================================================================================== *)
+(* Part C: legacy `<<...>>` and `@...:` block headers                                            *)
+(* =========================================================================================== *)
+From Coq Require Import ZArith.
+From Bardic Require Import ParseBlocks.
+
+(* the conditions (and collections) for which both header forms are read back exactly:
+   non-empty, no blank at either end, no `/` (a `//` would start a trailing comment in either form),
+   and no `>>` before the end (it would close the legacy form early) *)
+Definition cond_ok (c : string) : bool :=
+  ParseLine.nonempty c && String.eqb (strip c) c && slash_free c &&
+  match str_find (drop 1 (c ++ ">>")) ">>" with
+  | Some k => k =? String.length c - 1
+  | None => false
+  end.
+
+Lemma rstrip_app_fixed : forall x y, rstrip y = y -> y <> "" -> rstrip (x ++ y) = x ++ y.
+Proof.
+  induction x as [|a x IH]; intros y Hy Hn; [exact Hy|].
+  cbn [append]. rewrite rstrip_cons, (IH y Hy Hn).
+  destruct (x ++ y) eqn:E; [|reflexivity]. destruct x; simpl in E; [congruence|discriminate].
+Qed.
+
+Lemma drop_app_len : forall x y, drop (String.length x) (x ++ y) = y.
+Proof. induction x as [|a x IH]; intros y; simpl; [reflexivity|apply IH]. Qed.
+
+Lemma slash_free_app : forall a b, slash_free a = true -> slash_free b = true -> slash_free (a ++ b) = true.
+Proof.
+  induction a as [|x a IH]; intros b Ha Hb; [exact Hb|].
+  simpl in Ha |- *. apply andb_prop in Ha. destruct Ha as [H1 H2]. rewrite H1. simpl. apply IH; assumption.
+Qed.
+
+Lemma strip_fixed_head : forall c a r, strip c = c -> c = String a r -> is_space a = false.
+Proof.
+  intros c a r Hs ->. destruct (is_space a) eqn:Ea; [|reflexivity].
+  exfalso. unfold strip in Hs. cbn [lstrip] in Hs. rewrite Ea in Hs.
+  pose proof (length_rstrip_le (lstrip r)) as H1. pose proof (length_lstrip_le r) as H2.
+  rewrite Hs in H1. simpl in H1. lia.
+Qed.
+
+Lemma cond_ok_parts : forall c, cond_ok c = true ->
+  exists a r, c = String a r /\ is_space a = false /\ strip c = c /\ slash_free c = true /\
+              str_find (r ++ ">>") ">>" = Some (String.length r).
+Proof.
+  intros c H. unfold cond_ok in H.
+  apply andb_prop in H. destruct H as [H H4]. apply andb_prop in H. destruct H as [H H3].
+  apply andb_prop in H. destruct H as [H1 H2]. apply String.eqb_eq in H2.
+  destruct c as [|a r]; [discriminate|]. exists a, r.
+  split; [reflexivity|]. split; [eapply strip_fixed_head; [exact H2|reflexivity]|].
+  split; [exact H2|]. split; [exact H3|].
+  cbn [append drop] in H4. destruct (str_find (r ++ ">>") ">>") as [k|]; [|discriminate].
+  apply Nat.eqb_eq in H4. simpl in H4. rewrite H4. f_equal. lia.
+Qed.
+
+(* strip of an (indented) header line *)
+Lemma strip_header : forall ind a body e,
+  all_space ind = true -> is_space a = false -> rstrip e = e -> e <> "" ->
+  strip (ind ++ String a (body ++ e)) = String a (body ++ e).
+Proof.
+  intros ind a body e Hi Ha He Hn. unfold strip. rewrite (lstrip_app_ws ind _ Hi). cbn [lstrip]. rewrite Ha.
+  change (String a (body ++ e)) with ((String a body) ++ e). apply rstrip_app_fixed; assumption.
+Qed.
+
+Lemma sic_slash_free_fst : forall s, slash_free s = true -> fst (strip_inline_comment s) = s.
+Proof. intros s H. rewrite (slash_free_identity s H). reflexivity. Qed.
+
+Lemma startswith_app_self : forall p s, startswith (p ++ s) p = true.
+Proof.
+  induction p as [|x p IH]; intros s; simpl; [destruct s; reflexivity|].
+  unfold ascii_eqb. rewrite Ascii.eqb_refl. apply IH.
+Qed.
+
+Lemma endswith_app_self : forall x y, endswith (x ++ y) y = true.
+Proof.
+  intros x y. unfold endswith. rewrite length_append.
+  replace (String.length y <=? String.length x + String.length y) with true
+    by (symmetry; apply Nat.leb_le; lia).
+  replace (String.length x + String.length y - String.length y) with (String.length x) by lia.
+  rewrite drop_app_len, String.eqb_refl. reflexivity.
+Qed.
+
+Lemma take_all_but_last : forall x y, take (String.length (x ++ y) - String.length y) (x ++ y) = x.
+Proof.
+  intros x y. rewrite length_append.
+  replace (String.length x + String.length y - String.length y) with (String.length x) by lia.
+  apply take_app_len.
+Qed.
+
+(* the @-form: `PREFIX c:` is read back as c *)
+Lemma match_colon_tail_cond : forall prefix c,
+  cond_ok c = true ->
+  option_map strip (match_colon_tail prefix (prefix ++ " " ++ c ++ ":")) = Some c.
+Proof.
+  intros prefix c H. destruct (cond_ok_parts c H) as [a [r [-> [Ha [Hs [Hf Hk]]]]]].
+  unfold match_colon_tail.
+  assert (Eq : prefix ++ " " ++ String a r ++ ":" = (prefix ++ " " ++ String a r) ++ ":")
+    by (rewrite !LexProofs.app_assoc; reflexivity).
+  assert (E1 : startswith (prefix ++ " " ++ String a r ++ ":") prefix = true)
+    by apply startswith_app_self.
+  rewrite E1, Eq. set (X := prefix ++ " " ++ String a r).
+  rewrite (rstrip_app_fixed X ":") by (reflexivity || discriminate).
+  rewrite endswith_app_self. cbn [andb].
+  replace (take (String.length (X ++ ":") - 1) (X ++ ":")) with X
+    by (symmetry; apply (take_all_but_last X ":")).
+  unfold X. rewrite drop_app_len. cbn [append].
+  change (is_space " ") with true. cbn [andb String.length Nat.leb option_map].
+  f_equal. unfold strip. cbn [lstrip]. change (is_space " ") with true. cbv iota. exact Hs.
+Qed.
+
+(* the legacy form: `PREFIX c>>` is read back as c *)
+Lemma match_legacy_cond : forall prefix c,
+  cond_ok c = true ->
+  match_legacy prefix (prefix ++ " " ++ c ++ ">>") = Some c.
+Proof.
+  intros prefix c H. destruct (cond_ok_parts c H) as [a [r [-> [Ha [Hs [Hf Hk]]]]]].
+  unfold match_legacy.
+  assert (E1 : startswith (prefix ++ " " ++ String a r ++ ">>") prefix = true).
+  { clear. induction prefix as [|x p IH]; simpl; [reflexivity|].
+    unfold ascii_eqb. rewrite Ascii.eqb_refl. exact IH. }
+  rewrite E1, drop_app_len.
+  assert (E2 : lstrip (" " ++ String a r ++ ">>") = String a (r ++ ">>")).
+  { cbn [append lstrip]. change (is_space " ") with true. cbv iota. rewrite Ha. reflexivity. }
+  unfold ws_run. rewrite E2. cbn [append String.length].
+  replace (S (S (String.length (r ++ ">>"))) - S (String.length (r ++ ">>"))) with 1 by lia.
+  cbn [Nat.leb]. unfold lazy_close. rewrite Hk.
+  f_equal. change (String a (r ++ ">>")) with (String a r ++ ">>").
+  replace (S (String.length r)) with (String.length (String a r)) by reflexivity.
+  rewrite take_app_len. exact Hs.
+Qed.
+
+Section HeaderForms.
+Variable fixed : bool.
+Variable lf : linefns.
+Variables rc rl : list string -> nat -> pres (token * nat).
+Variable lines : list string.
+Variable start : nat.
+
+Lemma if_header_at : forall ind c st, cond_ok c = true -> all_space ind = true ->
+  cond_step fixed lf rc rl lines start start (ind ++ "@if " ++ c ++ ":") st =
+  POk (CNext (mkCstate (cs_branches st) (Some (c, [], [])) [] (Some c)) 1).
+Proof.
+  intros ind c st H Hi. unfold cond_step.
+  assert (Hs : strip (ind ++ "@if " ++ c ++ ":") = "@if " ++ c ++ ":").
+  { change ("@if " ++ c ++ ":") with (String "@" (("if " ++ c) ++ ":")).
+    apply strip_header; [exact Hi|reflexivity|reflexivity|discriminate]. }
+  rewrite Hs. clear Hs.
+  destruct (cond_ok_parts c H) as [a [r [Ec [Ha [Hs [Hf Hk]]]]]].
+  assert (Hsic : fst (strip_inline_comment ("@if " ++ c ++ ":")) = "@if " ++ c ++ ":").
+  { apply sic_slash_free_fst. apply (slash_free_app "@if "); [reflexivity|].
+    apply slash_free_app; [exact Hf|reflexivity]. }
+  rewrite Hsic. unfold is_if_line, is_py_line, is_for_line.
+  rewrite (startswith_app_self "@if " (c ++ ":")). rewrite Nat.eqb_refl.
+  pose proof (match_colon_tail_cond "@if" c H) as Hm.
+  change ("@if" ++ " " ++ c ++ ":") with ("@if " ++ c ++ ":") in Hm.
+  destruct (match_colon_tail "@if" ("@if " ++ c ++ ":")) as [body|]; [|discriminate].
+  simpl in Hm. injection Hm as Hm.
+  Opaque strip. simpl. Transparent strip.
+  rewrite Hm. reflexivity.
+Qed.
+
+Lemma if_header_legacy : forall ind c st, cond_ok c = true -> all_space ind = true ->
+  cond_step fixed lf rc rl lines start start (ind ++ "<<if " ++ c ++ ">>") st =
+  POk (CNext (mkCstate (cs_branches st) (Some (c, [], [])) [] (Some c)) 1).
+Proof.
+  intros ind c st H Hi. unfold cond_step.
+  assert (Hs : strip (ind ++ "<<if " ++ c ++ ">>") = "<<if " ++ c ++ ">>").
+  { change ("<<if " ++ c ++ ">>") with (String "<" (("<if " ++ c) ++ ">>")).
+    apply strip_header; [exact Hi|reflexivity|reflexivity|discriminate]. }
+  rewrite Hs. clear Hs.
+  destruct (cond_ok_parts c H) as [a [r [Ec [Ha [Hs [Hf Hk]]]]]].
+  assert (Hsic : fst (strip_inline_comment ("<<if " ++ c ++ ">>")) = "<<if " ++ c ++ ">>").
+  { apply sic_slash_free_fst. apply (slash_free_app "<<if "); [reflexivity|].
+    apply slash_free_app; [exact Hf|reflexivity]. }
+  rewrite Hsic. unfold is_if_line, is_py_line, is_for_line.
+  rewrite (startswith_app_self "<<if " (c ++ ">>")). rewrite Nat.eqb_refl.
+  unfold legacy_condition.
+  pose proof (match_legacy_cond "<<if" c H) as Hm.
+  change ("<<if" ++ " " ++ c ++ ">>") with ("<<if " ++ c ++ ">>") in Hm.
+  rewrite Hm.
+  simpl. reflexivity.
+Qed.
+
+Lemma elif_header_at : forall i ind c st, cond_ok c = true -> all_space ind = true ->
+  cond_step fixed lf rc rl lines start i (ind ++ "@elif " ++ c ++ ":") st =
+  start_new_branch lf st c (Some c).
+Proof.
+  intros i ind c st H Hi. unfold cond_step.
+  assert (Hs : strip (ind ++ "@elif " ++ c ++ ":") = "@elif " ++ c ++ ":").
+  { change ("@elif " ++ c ++ ":") with (String "@" (("elif " ++ c) ++ ":")).
+    apply strip_header; [exact Hi|reflexivity|reflexivity|discriminate]. }
+  rewrite Hs. clear Hs.
+  destruct (cond_ok_parts c H) as [a [r [Ec [Ha [Hs [Hf Hk]]]]]].
+  assert (Hsic : fst (strip_inline_comment ("@elif " ++ c ++ ":")) = "@elif " ++ c ++ ":").
+  { apply sic_slash_free_fst. apply (slash_free_app "@elif "); [reflexivity|].
+    apply slash_free_app; [exact Hf|reflexivity]. }
+  rewrite Hsic. unfold is_if_line, is_py_line, is_for_line.
+  rewrite (startswith_app_self "@elif " (c ++ ":")).
+  pose proof (match_colon_tail_cond "@elif" c H) as Hm.
+  change ("@elif" ++ " " ++ c ++ ":") with ("@elif " ++ c ++ ":") in Hm.
+  destruct (match_colon_tail "@elif" ("@elif " ++ c ++ ":")) as [body|]; [|discriminate].
+  simpl in Hm. injection Hm as Hm.
+  Opaque strip start_new_branch. simpl. Transparent strip start_new_branch.
+  rewrite Hm. reflexivity.
+Qed.
+
+Lemma elif_header_legacy : forall i ind c st, cond_ok c = true -> all_space ind = true ->
+  cond_step fixed lf rc rl lines start i (ind ++ "<<elif " ++ c ++ ">>") st =
+  start_new_branch lf st c (Some c).
+Proof.
+  intros i ind c st H Hi. unfold cond_step.
+  assert (Hs : strip (ind ++ "<<elif " ++ c ++ ">>") = "<<elif " ++ c ++ ">>").
+  { change ("<<elif " ++ c ++ ">>") with (String "<" (("<elif " ++ c) ++ ">>")).
+    apply strip_header; [exact Hi|reflexivity|reflexivity|discriminate]. }
+  rewrite Hs. clear Hs.
+  destruct (cond_ok_parts c H) as [a [r [Ec [Ha [Hs [Hf Hk]]]]]].
+  assert (Hsic : fst (strip_inline_comment ("<<elif " ++ c ++ ">>")) = "<<elif " ++ c ++ ">>").
+  { apply sic_slash_free_fst. apply (slash_free_app "<<elif "); [reflexivity|].
+    apply slash_free_app; [exact Hf|reflexivity]. }
+  rewrite Hsic. unfold is_if_line, is_py_line, is_for_line.
+  rewrite (startswith_app_self "<<elif " (c ++ ">>")).
+  unfold legacy_condition.
+  pose proof (match_legacy_cond "<<elif" c H) as Hm.
+  change ("<<elif" ++ " " ++ c ++ ">>") with ("<<elif " ++ c ++ ">>") in Hm.
+  rewrite Hm.
+  Opaque start_new_branch. simpl. Transparent start_new_branch. reflexivity.
+Qed.
+
+Lemma strip_closed_header : forall ind a body,
+  all_space ind = true -> is_space a = false -> rstrip (String a body) = String a body ->
+  strip (ind ++ String a body) = String a body.
+Proof.
+  intros ind a body Hi Ha Hr. unfold strip. rewrite (lstrip_app_ws ind _ Hi). cbn [lstrip]. rewrite Ha. exact Hr.
+Qed.
+
+Lemma else_header_at : forall i ind st, all_space ind = true ->
+  cond_step fixed lf rc rl lines start i (ind ++ "@else:") st =
+  start_new_branch lf st "True" (cs_condvar st).
+Proof.
+  intros i ind st Hi. unfold cond_step.
+  rewrite (strip_closed_header ind "@" "else:" Hi) by reflexivity.
+  Opaque start_new_branch. simpl. Transparent start_new_branch. reflexivity.
+Qed.
+
+Lemma else_header_legacy : forall i ind st, all_space ind = true ->
+  cond_step fixed lf rc rl lines start i (ind ++ "<<else>>") st =
+  start_new_branch lf st "True" (cs_condvar st).
+Proof.
+  intros i ind st Hi. unfold cond_step.
+  rewrite (strip_closed_header ind "<" "<else>>" Hi) by reflexivity.
+  Opaque start_new_branch. simpl. Transparent start_new_branch. reflexivity.
+Qed.
+
+Lemma endif_at : forall i ind st, all_space ind = true ->
+  cond_step fixed lf rc rl lines start i (ind ++ "@endif") st =
+  (let* brs := finalize lf st in POk (CDone brs)).
+Proof.
+  intros i ind st Hi. unfold cond_step.
+  rewrite (strip_closed_header ind "@" "endif" Hi) by reflexivity.
+  Opaque finalize. simpl. Transparent finalize. reflexivity.
+Qed.
+
+Lemma endif_legacy : forall i ind st, all_space ind = true ->
+  cond_step fixed lf rc rl lines start i (ind ++ "<<endif>>") st =
+  (let* brs := finalize lf st in POk (CDone brs)).
+Proof.
+  intros i ind st Hi. unfold cond_step.
+  rewrite (strip_closed_header ind "<" "<endif>>" Hi) by reflexivity.
+  Opaque finalize. simpl. Transparent finalize. reflexivity.
+Qed.
+
+(* (c): the two forms of each header of a conditional block take the conditional extractor to the
+   same state, whatever the indentation of either form *)
+Lemma if_forms_agree_lemma : forall ind1 ind2 c st,
+  cond_ok c = true -> all_space ind1 = true -> all_space ind2 = true ->
+  cond_step fixed lf rc rl lines start start (ind1 ++ "@if " ++ c ++ ":") st =
+  cond_step fixed lf rc rl lines start start (ind2 ++ "<<if " ++ c ++ ">>") st.
+Proof. intros. rewrite if_header_at, if_header_legacy by assumption. reflexivity. Qed.
+
+Lemma elif_forms_agree_lemma : forall i ind1 ind2 c st,
+  cond_ok c = true -> all_space ind1 = true -> all_space ind2 = true ->
+  cond_step fixed lf rc rl lines start i (ind1 ++ "@elif " ++ c ++ ":") st =
+  cond_step fixed lf rc rl lines start i (ind2 ++ "<<elif " ++ c ++ ">>") st.
+Proof. intros. rewrite elif_header_at, elif_header_legacy by assumption. reflexivity. Qed.
+
+Lemma else_forms_agree_lemma : forall i ind1 ind2 st,
+  all_space ind1 = true -> all_space ind2 = true ->
+  cond_step fixed lf rc rl lines start i (ind1 ++ "@else:") st =
+  cond_step fixed lf rc rl lines start i (ind2 ++ "<<else>>") st.
+Proof. intros. rewrite else_header_at, else_header_legacy by assumption. reflexivity. Qed.
+
+Lemma endif_forms_agree_lemma : forall i ind1 ind2 st,
+  all_space ind1 = true -> all_space ind2 = true ->
+  cond_step fixed lf rc rl lines start i (ind1 ++ "@endif") st =
+  cond_step fixed lf rc rl lines start i (ind2 ++ "<<endif>>") st.
+Proof. intros. rewrite endif_at, endif_legacy by assumption. reflexivity. Qed.
+
+End HeaderForms.
+
+(* ---- `for` headers ---- *)
+
+(* loop variables: non-empty, no whitespace inside *)
+Definition var_ok (v : string) : bool :=
+  ParseLine.nonempty v && all_chars (fun ch => negb (is_space ch)) v && slash_free v.
+
+Lemma match_colon_tail_raw : forall prefix X, X <> "" ->
+  match_colon_tail prefix (prefix ++ " " ++ X ++ ":") = Some (" " ++ X).
+Proof.
+  intros prefix X HX. unfold match_colon_tail.
+  assert (Eq : prefix ++ " " ++ X ++ ":" = (prefix ++ " " ++ X) ++ ":")
+    by (rewrite !LexProofs.app_assoc; reflexivity).
+  assert (E1 : startswith (prefix ++ " " ++ X ++ ":") prefix = true) by apply startswith_app_self.
+  rewrite E1, Eq. set (Y := prefix ++ " " ++ X).
+  rewrite (rstrip_app_fixed Y ":") by (reflexivity || discriminate).
+  rewrite endswith_app_self. cbn [andb].
+  replace (take (String.length (Y ++ ":") - 1) (Y ++ ":")) with Y
+    by (symmetry; apply (take_all_but_last Y ":")).
+  unfold Y. rewrite drop_app_len. cbn [append].
+  change (is_space " ") with true. destruct X as [|x X]; [congruence|]. reflexivity.
+Qed.
+
+Lemma ws_run_nonspace : forall a t, is_space a = false -> ws_run (String a t) = 0.
+Proof. intros a t H. unfold ws_run. cbn [lstrip]. rewrite H. lia. Qed.
+
+Lemma ws_run_one : forall a t, is_space a = false -> ws_run (String " " (String a t)) = 1.
+Proof.
+  intros a t H. unfold ws_run. cbn [lstrip]. change (is_space " ") with true. cbv iota. rewrite H.
+  cbn [String.length]. lia.
+Qed.
+
+Lemma lazy_close_cond : forall c, cond_ok c = true -> lazy_close 1 (c ++ ">>") = Some c.
+Proof.
+  intros c H. destruct (cond_ok_parts c H) as [a [r [-> [Ha [Hs [Hf Hk]]]]]].
+  unfold lazy_close. cbn [append]. rewrite Hk. f_equal.
+  change (String a (r ++ ">>")) with (String a r ++ ">>").
+  replace (S (String.length r)) with (String.length (String a r)) by reflexivity.
+  rewrite take_app_len. exact Hs.
+Qed.
+
+Lemma for_tail_colon_nonspace : forall a t, is_space a = false -> for_tail_colon (String a t) = None.
+Proof. intros a t H. unfold for_tail_colon. rewrite (ws_run_nonspace a t H). reflexivity. Qed.
+
+Lemma for_tail_legacy_nonspace : forall a t, is_space a = false -> for_tail_legacy (String a t) = None.
+Proof. intros a t H. unfold for_tail_legacy. rewrite (ws_run_nonspace a t H). reflexivity. Qed.
+
+Lemma for_tail_colon_in : forall c, cond_ok c = true -> for_tail_colon (" in " ++ c) = Some c.
+Proof.
+  intros c H. destruct (cond_ok_parts c H) as [a [r [-> [Ha [Hs [Hf Hk]]]]]].
+  unfold for_tail_colon. cbn [append]. rewrite (ws_run_one "i" _ eq_refl). cbn [Nat.leb].
+  cbn [lstrip]. change (is_space " ") with true. change (is_space "i") with false. cbv iota.
+  replace (startswith (String "i" (String "n" (String " " (String a r)))) "in") with true by reflexivity.
+  cbn [drop]. change (is_space " ") with true. cbn [andb String.length].
+  f_equal. unfold strip. cbn [lstrip]. change (is_space " ") with true. cbv iota. exact Hs.
+Qed.
+
+Lemma for_tail_legacy_in : forall c, cond_ok c = true -> for_tail_legacy (" in " ++ c ++ ">>") = Some c.
+Proof.
+  intros c H. pose proof (lazy_close_cond c H) as Hl.
+  destruct (cond_ok_parts c H) as [a [r [-> [Ha [Hs [Hf Hk]]]]]].
+  unfold for_tail_legacy. cbn [append]. rewrite (ws_run_one "i" _ eq_refl). cbn [Nat.leb].
+  cbn [lstrip]. change (is_space " ") with true. change (is_space "i") with false. cbv iota.
+  replace (startswith (String "i" (String "n" (String " " (String a (r ++ ">>"))))) "in") with true by reflexivity.
+  cbn [drop]. rewrite (ws_run_one a _ Ha). cbn [Nat.leb].
+  cbn [lstrip]. change (is_space " ") with true. cbv iota. rewrite Ha.
+  exact Hl.
+Qed.
+
+(* the lazy scan for the variable stops at the first blank after it *)
+Lemma for_scan_var : forall (tail : string -> option string) coll rest,
+  (forall a t, is_space a = false -> tail (String a t) = None) ->
+  tail (String " " rest) = Some coll ->
+  forall v pre, all_chars (fun ch => negb (is_space ch)) v = true ->
+  ParseBlocks.nonempty (pre ++ v) = true ->
+  for_scan tail pre (v ++ String " " rest) = Some (pre ++ v, coll).
+Proof.
+  intros tail coll rest Hn Ht. induction v as [|a v IH]; intros pre Hv Hne.
+  - rewrite LexProofs.app_nil_r in *. cbn [append for_scan]. rewrite Hne, Ht. reflexivity.
+  - cbn [all_chars] in Hv. apply andb_prop in Hv. destruct Hv as [Ha Hv]. apply negb_true_iff in Ha.
+    cbn [append for_scan]. rewrite (Hn a _ Ha).
+    assert (E : (if ParseBlocks.nonempty pre then @None string else None) = None) by (destruct (ParseBlocks.nonempty pre); reflexivity).
+    rewrite E. rewrite (IH (pre ++ String a "")).
+    + rewrite LexProofs.app_assoc. reflexivity.
+    + exact Hv.
+    + rewrite LexProofs.app_assoc. exact Hne.
+Qed.
+
+Lemma var_ok_parts : forall v, var_ok v = true ->
+  exists a r, v = String a r /\ is_space a = false /\
+              all_chars (fun ch => negb (is_space ch)) v = true.
+Proof.
+  intros v H. unfold var_ok in H. apply andb_prop in H. destruct H as [H _].
+  apply andb_prop in H. destruct H as [H1 H2].
+  destruct v as [|a r]; [discriminate|]. exists a, r. split; [reflexivity|]. split; [|exact H2].
+  cbn [all_chars] in H2. apply andb_prop in H2. destruct H2 as [H2 _]. apply negb_true_iff in H2. exact H2.
+Qed.
+
+Lemma rstrip_no_space : forall v, all_chars (fun ch => negb (is_space ch)) v = true -> rstrip v = v.
+Proof.
+  induction v as [|a v IH]; intros H; [reflexivity|].
+  cbn [all_chars] in H. apply andb_prop in H. destruct H as [Ha Hv]. apply negb_true_iff in Ha.
+  rewrite rstrip_cons_nonspace by exact Ha. rewrite (IH Hv). reflexivity.
+Qed.
+
+Lemma for_match_var : forall (tail : string -> option string) v coll rest,
+  (forall a t, is_space a = false -> tail (String a t) = None) ->
+  tail (String " " rest) = Some coll -> var_ok v = true ->
+  for_match tail (" " ++ v ++ String " " rest) = Some (v, coll).
+Proof.
+  intros tail v coll rest Hn Ht Hv. destruct (var_ok_parts v Hv) as [a [r [Ev [Ha Hall]]]].
+  unfold for_match.
+  assert (Ew : ws_run (" " ++ v ++ String " " rest) = 1).
+  { rewrite Ev. cbn [append]. apply ws_run_one. exact Ha. }
+  rewrite Ew. cbn [for_starts]. cbn [append drop].
+  rewrite (for_scan_var tail coll rest Hn Ht v "" Hall) by (rewrite Ev; reflexivity).
+  cbn [append]. f_equal. f_equal.
+  unfold strip. rewrite Ev. cbn [lstrip]. rewrite Ha. rewrite <- Ev. apply rstrip_no_space. exact Hall.
+Qed.
+
+Lemma match_for_colon_forms : forall v coll, var_ok v = true -> cond_ok coll = true ->
+  match_for_colon ("@for " ++ v ++ " in " ++ coll ++ ":") = Some (v, coll).
+Proof.
+  intros v coll Hv Hc. unfold match_for_colon.
+  change ("@for " ++ v ++ " in " ++ coll ++ ":") with ("@for" ++ " " ++ v ++ " in " ++ coll ++ ":").
+  replace (v ++ " in " ++ coll ++ ":") with ((v ++ " in " ++ coll) ++ ":")
+    by (rewrite !LexProofs.app_assoc; reflexivity).
+  rewrite match_colon_tail_raw.
+  2:{ destruct (var_ok_parts v Hv) as [a [r [-> _]]]. discriminate. }
+  apply (for_match_var for_tail_colon v coll ("in " ++ coll)).
+  - exact for_tail_colon_nonspace.
+  - exact (for_tail_colon_in coll Hc).
+  - exact Hv.
+Qed.
+
+Lemma match_for_legacy_forms : forall v coll, var_ok v = true -> cond_ok coll = true ->
+  match_for_legacy ("<<for " ++ v ++ " in " ++ coll ++ ">>") = Some (v, coll).
+Proof.
+  intros v coll Hv Hc. unfold match_for_legacy.
+  change ("<<for " ++ v ++ " in " ++ coll ++ ">>") with ("<<for" ++ " " ++ v ++ " in " ++ coll ++ ">>").
+  rewrite (startswith_app_self "<<for" (" " ++ v ++ " in " ++ coll ++ ">>")).
+  change 5 with (String.length "<<for"). rewrite drop_app_len.
+  apply (for_match_var for_tail_legacy v coll ("in " ++ coll ++ ">>")).
+  - exact for_tail_legacy_nonspace.
+  - exact (for_tail_legacy_in coll Hc).
+  - exact Hv.
+Qed.
+
+Lemma var_ok_slash_free : forall v, var_ok v = true -> slash_free v = true.
+Proof. intros v H. unfold var_ok in H. apply andb_prop in H. tauto. Qed.
+
+Lemma cond_ok_slash_free : forall c, cond_ok c = true -> slash_free c = true.
+Proof. intros c H. destruct (cond_ok_parts c H) as [a [r [-> [_ [_ [Hf _]]]]]]. exact Hf. Qed.
+
+Lemma loop_collect_header_at : forall start rest ind v coll,
+  var_ok v = true -> cond_ok coll = true -> all_space ind = true ->
+  loop_collect start ((ind ++ "@for " ++ v ++ " in " ++ coll ++ ":") :: rest) start false 0%Z [] "" "" =
+  loop_collect start rest (S start) true 1%Z [] v coll.
+Proof.
+  intros start rest ind v coll Hv Hc Hi. cbn [loop_collect].
+  assert (Hs : strip (ind ++ "@for " ++ v ++ " in " ++ coll ++ ":") = "@for " ++ v ++ " in " ++ coll ++ ":").
+  { replace ("@for " ++ v ++ " in " ++ coll ++ ":") with (String "@" (("for " ++ v ++ " in " ++ coll) ++ ":")).
+    2:{ cbn [append]. rewrite !LexProofs.app_assoc. reflexivity. }
+    apply strip_header; [exact Hi|reflexivity|reflexivity|discriminate]. }
+  rewrite Hs. unfold is_for_line.
+  rewrite (startswith_app_self "@for " (v ++ " in " ++ coll ++ ":")). rewrite Nat.eqb_refl, orb_true_r.
+  cbn [andb].
+  rewrite sic_slash_free_fst.
+  2:{ apply (slash_free_app "@for "); [reflexivity|].
+      apply slash_free_app; [apply var_ok_slash_free; exact Hv|].
+      apply (slash_free_app " in "); [reflexivity|].
+      apply slash_free_app; [apply cond_ok_slash_free; exact Hc|reflexivity]. }
+  rewrite (match_for_colon_forms v coll Hv Hc). reflexivity.
+Qed.
+
+Lemma loop_collect_header_legacy : forall start rest ind v coll,
+  var_ok v = true -> cond_ok coll = true -> all_space ind = true ->
+  loop_collect start ((ind ++ "<<for " ++ v ++ " in " ++ coll ++ ">>") :: rest) start false 0%Z [] "" "" =
+  loop_collect start rest (S start) true 1%Z [] v coll.
+Proof.
+  intros start rest ind v coll Hv Hc Hi. cbn [loop_collect].
+  assert (Hs : strip (ind ++ "<<for " ++ v ++ " in " ++ coll ++ ">>") = "<<for " ++ v ++ " in " ++ coll ++ ">>").
+  { replace ("<<for " ++ v ++ " in " ++ coll ++ ">>") with (String "<" (("<for " ++ v ++ " in " ++ coll) ++ ">>")).
+    2:{ cbn [append]. rewrite !LexProofs.app_assoc. reflexivity. }
+    apply strip_header; [exact Hi|reflexivity|reflexivity|discriminate]. }
+  rewrite Hs. unfold is_for_line.
+  rewrite (startswith_app_self "<<for " (v ++ " in " ++ coll ++ ">>")). rewrite Nat.eqb_refl.
+  cbn [andb orb].
+  rewrite sic_slash_free_fst.
+  2:{ apply (slash_free_app "<<for "); [reflexivity|].
+      apply slash_free_app; [apply var_ok_slash_free; exact Hv|].
+      apply (slash_free_app " in "); [reflexivity|].
+      apply slash_free_app; [apply cond_ok_slash_free; exact Hc|reflexivity]. }
+  replace (startswith ("<<for " ++ v ++ " in " ++ coll ++ ">>") "@for ") with false by reflexivity.
+  rewrite (match_for_legacy_forms v coll Hv Hc). reflexivity.
+Qed.
+
+(* (c), whole block: a loop block compiles to the same token (and consumes the same number of lines)
+   whether it is opened with `@for v in coll:` or with `<<for v in coll>>`, whatever precedes it,
+   whatever its body is, whatever follows it *)
+Lemma for_forms_agree_lemma : forall fixed cap lf pre rest ind1 ind2 v coll,
+  var_ok v = true -> cond_ok coll = true -> all_space ind1 = true -> all_space ind2 = true ->
+  extract_loop_block_v fixed cap lf
+    (pre ++ (ind1 ++ "@for " ++ v ++ " in " ++ coll ++ ":") :: rest) (List.length pre) =
+  extract_loop_block_v fixed cap lf
+    (pre ++ (ind2 ++ "<<for " ++ v ++ " in " ++ coll ++ ">>") :: rest) (List.length pre).
+Proof.
+  intros fixed cap lf pre rest ind1 ind2 v coll Hv Hc H1 H2.
+  unfold extract_loop_block_v, block_fuel. rewrite !app_length. cbn [List.length].
+  cbn [extract_loop_block_f]. destruct (too_deep cap 0); [reflexivity|].
+  unfold loop_body.
+  rewrite !skipn_app, !Nat.sub_diag, !skipn_all. cbn [skipn app].
+  rewrite loop_collect_header_at, loop_collect_header_legacy by assumption. reflexivity.
 Qed.
